@@ -47,7 +47,9 @@ LargeDescs == << <<"mm", <<12, 9>>, <<9, 8>>>>, <<"mm", <<3, 10>>, <<10, 3>>>>, 
                  <<"tr", <<17, 3>>, <<>>>>, <<"tr", <<4, 4, 4, 2, 3>>, <<>>>>, <<"tr", <<70, 2, 2>>, <<>>>> >>
 (* the SAME tensor used by several operations in turn (an operation must not leave anything behind on its operands) *)
 MixDescs == << <<"mix", <<1, 3>>, <<3, 3>>>>, <<"mix", <<2, 1, 2>>, <<2, 2>>>>, <<"mix", <<1, 2>>, <<2, 2>>>>, <<"mix", <<3, 1, 3>>, <<3, 3>>>> >>
-Descs == MyCases(LargeDescs \o MixDescs \o MatMulDescs \o DotDescs \o TrDescs \o BadDescs \o IdDescs)
+(* a Transpose result used as a MatMul operand several times, with other products in between *)
+ReuseTrDescs == << <<"retr", <<3, 2>>, <<4, 2>>, <<2, 2>>>>, <<"retr", <<2, 2>>, <<1, 2>>, <<3, 2>>>>, <<"retr", <<2, 3, 2>>, <<2, 1, 2>>, <<1, 2>>>> >>
+Descs == MyCases(ReuseTrDescs \o LargeDescs \o MixDescs \o MatMulDescs \o DotDescs \o TrDescs \o BadDescs \o IdDescs)
 
 D == "any,wide,zero"
 (* fourth profile: entries below 1e-240 (the library's equality tolerance) against entries above 1e240 - their products are ordinary numbers *)
@@ -56,6 +58,11 @@ DB == "any,wide,zero,huge250"
 Build(d) ==
   CASE d[1] = "mm" -> MkCase("c04", "matmul", <<In("a", d[2], FALSE), In("b", d[3], FALSE)>>, <<DA, DB>>,
                              <<Ins("matmul", NoPar, <<1, 2>>)>>, <<3>>, 0, TRUE)
+    [] d[1] = "retr" ->
+         (* w: [.., n, k] (transposed to [.., k, n]); x1: [.., m1, k]; x2: [m2, k] *)
+         MkCase("c04", "transpose-reused", <<In("w", d[2], FALSE), In("x", d[3], FALSE), In("z", d[4], FALSE)>>, <<"any", "any", "any">>,
+                <<Ins("transpose", NoPar, <<1>>), Ins("matmul", NoPar, <<2, 4>>), Ins("matmul", NoPar, <<3, 4>>), Ins("matmul", NoPar, <<4, 1>>),
+                  Ins("matmul", NoPar, <<2, 4>>), Ins("matmul", NoPar, <<4, 1>>)>>, <<5, 6, 7, 8, 9>>, 0, TRUE)
     [] d[1] = "dot" -> MkCase("c04", "dot", <<In("a", d[2], FALSE), In("b", d[3], FALSE)>>, <<DB, DA>>,
                               <<Ins("dot", NoPar, <<1, 2>>)>>, <<3>>, 0, TRUE)
     [] d[1] = "tr" -> MkCase("c04", "transpose", <<In("a", d[2], FALSE)>>, <<"iota">>,
